@@ -79,6 +79,82 @@ Definition shift_cls (k : nat) (c : cls) : cls :=
 Lemma gen_loc : py_loc_lo_sub = 1 /\ py_loc_hi_add = 0 /\ rs_loc_lo_sub = 0 /\ rs_loc_hi_add = 1 /\ ts_loc_mode = LocFilter 0 1 "//".
 Proof. repeat split; reflexivity. Qed.
 
+Lemma sapp_assoc' a b c : ((a ++ b) ++ c)%string = (a ++ (b ++ c))%string.
+Proof. induction a as [|x r IH]; [reflexivity|]. cbn [append]. now rewrite IH. Qed.
+
+(* ---------- the text the metric looks at: str.strip() of the raw line (Model/SrpTypes.v) ---------- *)
+Definition ws_all (w : string) : bool := all_of SrpTypes.is_ws w.
+
+Lemma lstrip_ws_app : forall w s, ws_all w = true -> SrpTypes.lstrip (w ++ s) = SrpTypes.lstrip s.
+Proof.
+  induction w as [|c r IH]; intros s H; [reflexivity|]. unfold ws_all in H. cbn [all_of] in H. apply andb_true_iff in H as [Hc H].
+  cbn [append SrpTypes.lstrip]. rewrite Hc. now apply IH.
+Qed.
+
+Lemma rstrip_ws : forall w, ws_all w = true -> SrpTypes.rstrip w = EmptyString.
+Proof.
+  induction w as [|c r IH]; intro H; [reflexivity|]. unfold ws_all in H. cbn [all_of] in H. apply andb_true_iff in H as [Hc H].
+  cbn [SrpTypes.rstrip]. rewrite (IH H). now rewrite Hc.
+Qed.
+
+Lemma rstrip_app_ws : forall s w, ws_all w = true -> SrpTypes.rstrip (s ++ w) = SrpTypes.rstrip s.
+Proof.
+  induction s as [|c r IH]; intros w H; [cbn [append]; now rewrite rstrip_ws|]. cbn [append SrpTypes.rstrip]. now rewrite IH.
+Qed.
+
+Lemma rstrip_solid c r : SrpTypes.is_ws c = false -> SrpTypes.rstrip (String c r) = String c (SrpTypes.rstrip r).
+Proof. intro H. cbn [SrpTypes.rstrip]. destruct (SrpTypes.rstrip r); [now rewrite H|reflexivity]. Qed.
+
+Lemma lstrip_is_suffix : forall s, exists w, ws_all w = true /\ s = (w ++ SrpTypes.lstrip s)%string.
+Proof.
+  induction s as [|c r IH]; [exists EmptyString; split; reflexivity|]. cbn [SrpTypes.lstrip]. destruct (SrpTypes.is_ws c) eqn:E.
+  - destruct IH as (w & Hw & Er). exists (String c w). split; [unfold ws_all in *; cbn [all_of]; now rewrite E, Hw|]. cbn [append]. now rewrite <- Er.
+  - exists EmptyString. split; reflexivity.
+Qed.
+
+(* trailing white space (a CR included) and any change of the indentation leave the stripped text unchanged *)
+Theorem strip_trailing_ws s w : ws_all w = true -> SrpTypes.strip (s ++ w) = SrpTypes.strip s.
+Proof.
+  intro H. unfold SrpTypes.strip. destruct (lstrip_is_suffix s) as (w0 & H0 & E).
+  rewrite E at 1. rewrite sapp_assoc'. rewrite lstrip_ws_app by assumption.
+  destruct (SrpTypes.lstrip s) as [|c r] eqn:L.
+  - cbn [append]. destruct (lstrip_is_suffix w) as (w1 & H1 & E1). rewrite rstrip_ws; [reflexivity|].
+    clear - H. revert H. induction w as [|c r IH]; intro H; [reflexivity|]. unfold ws_all in *. cbn [all_of] in H.
+    apply andb_true_iff in H as [Hc H]. cbn [SrpTypes.lstrip]. rewrite Hc. now apply IH.
+  - assert (Hc : SrpTypes.is_ws c = false).
+    { clear - L. revert L. induction s as [|d s IH]; cbn [SrpTypes.lstrip]; [discriminate|]. destruct (SrpTypes.is_ws d) eqn:E; [exact IH|].
+      intro L. injection L as -> _. exact E. }
+    cbn [append SrpTypes.lstrip]. rewrite Hc. change (String c (r ++ w)) with (String c r ++ w)%string. now apply rstrip_app_ws.
+Qed.
+
+Theorem strip_leading_ws w s : ws_all w = true -> SrpTypes.strip (w ++ s) = SrpTypes.strip s.
+Proof. intro H. unfold SrpTypes.strip. now rewrite lstrip_ws_app. Qed.
+
+Lemma strip_ws w : ws_all w = true -> SrpTypes.strip w = EmptyString.
+Proof.
+  intro H. unfold SrpTypes.strip. replace (SrpTypes.lstrip w) with EmptyString; [reflexivity|].
+  symmetry. revert H. induction w as [|c r IH]; intro H; [reflexivity|]. unfold ws_all in *. cbn [all_of] in H.
+  apply andb_true_iff in H as [Hc H]. cbn [SrpTypes.lstrip]. rewrite Hc. now apply IH.
+Qed.
+
+(* a blank line (white space only) and a comment line (white space, the marker, anything) are not counted *)
+Lemma text_counts_blank pfx k w : ws_all w = true -> text_counts pfx {| l_kind := k; l_raw := w |} = false.
+Proof. intro H. unfold text_counts, l_text. cbn [l_raw]. now rewrite (strip_ws w H). Qed.
+
+Lemma text_counts_hash_comment k w t : ws_all w = true -> text_counts "#" {| l_kind := k; l_raw := (w ++ "#" ++ t)%string |} = false.
+Proof.
+  intro H. unfold text_counts, l_text. cbn [l_raw]. rewrite (strip_leading_ws w _ H). unfold SrpTypes.strip.
+  change (SrpTypes.lstrip ("#" ++ t)) with ("#" ++ t)%string. change ("#" ++ t)%string with (String "#" t).
+  rewrite (rstrip_solid "#" t eq_refl). cbn [starts_with Ascii.eqb Bool.eqb andb negb]. now rewrite andb_false_r.
+Qed.
+
+Lemma text_counts_slash_comment k w t : ws_all w = true -> text_counts "//" {| l_kind := k; l_raw := (w ++ "//" ++ t)%string |} = false.
+Proof.
+  intro H. unfold text_counts, l_text. cbn [l_raw]. rewrite (strip_leading_ws w _ H). unfold SrpTypes.strip.
+  change (SrpTypes.lstrip ("//" ++ t)) with ("//" ++ t)%string. change ("//" ++ t)%string with (String "/" (String "/" t)).
+  rewrite (rstrip_solid "/" _ eq_refl), (rstrip_solid "/" t eq_refl). cbn [starts_with Ascii.eqb Bool.eqb andb negb]. now rewrite andb_false_r.
+Qed.
+
 (* ---------- Python: heuristics.count_loc ---------- *)
 Theorem py_loc_insert q lines c k x : py_line_counts q x = false -> k <= List.length lines -> 1 <= c_line c -> 1 <= c_len c ->
   c_deco c = 0 ->
@@ -92,11 +168,11 @@ Proof.
 Qed.
 
 (* a blank line and a comment line are not counted, whatever the flags *)
-Lemma py_blank_not_counted q : py_line_counts q {| l_kind := LBlank; l_text := "" |} = false.
-Proof. destruct (q_py_hash_in_string q) eqn:E; unfold py_line_counts; rewrite E; reflexivity. Qed.
+Lemma py_blank_not_counted q w : ws_all w = true -> py_line_counts q {| l_kind := LBlank; l_raw := w |} = false.
+Proof. intro H. unfold py_line_counts. rewrite (text_counts_blank _ _ w H). cbn [l_kind lkind_eqb]. now rewrite andb_false_r. Qed.
 
-Lemma py_comment_not_counted q t : py_line_counts q {| l_kind := LComment; l_text := ("#" ++ t)%string |} = false.
-Proof. destruct (q_py_hash_in_string q) eqn:E; unfold py_line_counts; rewrite E; reflexivity. Qed.
+Lemma py_comment_not_counted q w t : ws_all w = true -> py_line_counts q {| l_kind := LComment; l_raw := (w ++ "#" ++ t)%string |} = false.
+Proof. intro H. unfold py_line_counts. rewrite (text_counts_hash_comment _ w t H). cbn [l_kind lkind_eqb]. now rewrite andb_false_r. Qed.
 
 (* ---------- Rust: _node_loc ---------- *)
 Theorem rs_loc_insert q lines start len k x : rs_line_counts q x = false -> k <= List.length lines -> 1 <= start -> 1 <= len ->
@@ -111,11 +187,11 @@ Proof.
   rewrite B1, B2. f_equal. now apply count_slice_ins.
 Qed.
 
-Lemma rs_blank_not_counted q : rs_line_counts q {| l_kind := LBlank; l_text := "" |} = false.
-Proof. reflexivity. Qed.
+Lemma rs_blank_not_counted q k w : ws_all w = true -> rs_line_counts q {| l_kind := k; l_raw := w |} = false.
+Proof. intro H. unfold rs_line_counts. destruct gen_loc as (_ & _ & _ & _ & _). change rs_comment_prefix with "//". now rewrite (text_counts_blank _ _ w H). Qed.
 
-Lemma rs_comment_not_counted q t : rs_line_counts q {| l_kind := LComment; l_text := ("//" ++ t)%string |} = false.
-Proof. reflexivity. Qed.
+Lemma rs_comment_not_counted q k w t : ws_all w = true -> rs_line_counts q {| l_kind := k; l_raw := (w ++ "//" ++ t)%string |} = false.
+Proof. intro H. unfold rs_line_counts. change rs_comment_prefix with "//". now rewrite (text_counts_slash_comment _ w t H). Qed.
 
 (* ---------- TypeScript / JavaScript: count_loc ---------- *)
 (* the rule is read from the source (Gen.SrpGen.ts_loc_mode); since fix c90fc92 it filters the lines of the node like the other
@@ -141,19 +217,67 @@ Proof.
   rewrite B1, B2. f_equal. now apply count_slice_ins.
 Qed.
 
-Lemma ts_blank_not_counted q : ts_line_counts q "//" {| l_kind := LBlank; l_text := "" |} = false.
-Proof. reflexivity. Qed.
+Lemma ts_blank_not_counted q k w : ws_all w = true -> ts_line_counts q "//" {| l_kind := k; l_raw := w |} = false.
+Proof. intro H. unfold ts_line_counts. now rewrite (text_counts_blank _ _ w H). Qed.
 
-Lemma ts_comment_not_counted q t : ts_line_counts q "//" {| l_kind := LComment; l_text := ("//" ++ t)%string |} = false.
-Proof. reflexivity. Qed.
+Lemma ts_comment_not_counted q k w t : ws_all w = true -> ts_line_counts q "//" {| l_kind := k; l_raw := (w ++ "//" ++ t)%string |} = false.
+Proof. intro H. unfold ts_line_counts. now rewrite (text_counts_slash_comment _ w t H). Qed.
 
 (* regression (finding q_ts_loc_raw_span, fixed by c90fc92): the old witness - a blank line inside a three-line class - now keeps
    its line count under the claimed vector *)
 Example ts_loc_old_witness_invariant :
-  let lines := [{| l_kind := LCode; l_text := "class A {" |}; {| l_kind := LCode; l_text := "x = 1;" |}; {| l_kind := LCode; l_text := "}" |}] in
+  let lines := [{| l_kind := LCode; l_raw := "class A {" |}; {| l_kind := LCode; l_raw := "  x = 1;" |}; {| l_kind := LCode; l_raw := "}" |}] in
   let c := {| c_name := "A"; c_kind := CPlain; c_line := 1; c_col := 0; c_deco := 0; c_len := 3; c_members := [] |} in
-  ts_count_loc srp_actual (ins 1 {| l_kind := LBlank; l_text := "" |} lines) (shift_cls 1 c) = ts_count_loc srp_actual lines c.
+  ts_count_loc srp_actual (ins 1 {| l_kind := LBlank; l_raw := "   " |} lines) (shift_cls 1 c) = ts_count_loc srp_actual lines c.
 Proof. vm_compute. reflexivity. Qed.
+
+(* ---------- trailing white space, CR, re-indentation of any lines: the same counts (no shift) ---------- *)
+Definition same_text (a b : line) : Prop := l_kind a = l_kind b /\ l_text a = l_text b.
+
+Lemma same_text_trailing k s w : ws_all w = true -> same_text {| l_kind := k; l_raw := s |} {| l_kind := k; l_raw := (s ++ w)%string |}.
+Proof. intro H. split; [reflexivity|]. unfold l_text. cbn [l_raw]. symmetry. now apply strip_trailing_ws. Qed.
+
+Lemma same_text_indent k w w' body : ws_all w = true -> ws_all w' = true ->
+  same_text {| l_kind := k; l_raw := (w ++ body)%string |} {| l_kind := k; l_raw := (w' ++ body)%string |}.
+Proof. intros H H'. split; [reflexivity|]. unfold l_text. cbn [l_raw]. now rewrite !strip_leading_ws. Qed.
+
+Lemma Forall2_skipn {A} (R : A -> A -> Prop) : forall n l l', Forall2 R l l' -> Forall2 R (skipn n l) (skipn n l').
+Proof. induction n as [|n IH]; intros l l' H; [exact H|]. destruct H; [constructor|]. cbn [skipn]. now apply IH. Qed.
+
+Lemma Forall2_firstn {A} (R : A -> A -> Prop) : forall n l l', Forall2 R l l' -> Forall2 R (firstn n l) (firstn n l').
+Proof. induction n as [|n IH]; intros l l' H; [constructor|]. destruct H; [constructor|]. cbn [firstn]. constructor; [assumption|now apply IH]. Qed.
+
+Lemma filter_length_same {A} (p : A -> bool) (R : A -> A -> Prop) : (forall a b, R a b -> p a = p b) ->
+  forall l l', Forall2 R l l' -> List.length (filter p l) = List.length (filter p l').
+Proof.
+  intros H l l' F. induction F as [|a b l l' Hab _ IH]; [reflexivity|]. cbn [filter]. rewrite (H a b Hab).
+  destruct (p b); cbn [List.length]; now rewrite IH.
+Qed.
+
+Lemma count_slice_same (p : line -> bool) lo hi : (forall a b, same_text a b -> p a = p b) ->
+  forall l l', Forall2 same_text l l' -> List.length (filter p (slice lo hi l)) = List.length (filter p (slice lo hi l')).
+Proof. intros H l l' F. unfold slice. apply (filter_length_same p same_text H). now apply Forall2_firstn, Forall2_skipn. Qed.
+
+Lemma text_counts_same pfx a b : same_text a b -> text_counts pfx a = text_counts pfx b.
+Proof. intros [_ E]. unfold text_counts. now rewrite E. Qed.
+
+Theorem py_loc_same_text q ls ls' c : Forall2 same_text ls ls' -> py_count_loc q ls c = py_count_loc q ls' c.
+Proof.
+  intro F. unfold py_count_loc. apply count_slice_same; [|exact F].
+  intros a b H. unfold py_line_counts. rewrite (text_counts_same _ a b H). destruct H as [K _]. now rewrite K.
+Qed.
+
+Theorem rs_loc_same_text q ls ls' start len : Forall2 same_text ls ls' -> rs_node_loc q ls start len = rs_node_loc q ls' start len.
+Proof.
+  intro F. unfold rs_node_loc. apply count_slice_same; [|exact F].
+  intros a b H. unfold rs_line_counts. rewrite (text_counts_same _ a b H). destruct H as [K _]. now rewrite K.
+Qed.
+
+Theorem ts_loc_same_text q ls ls' c : Forall2 same_text ls ls' -> ts_count_loc q ls c = ts_count_loc q ls' c.
+Proof.
+  intro F. unfold ts_count_loc. destruct gen_loc as (_ & _ & _ & _ & ->). apply count_slice_same; [|exact F].
+  intros a b H. unfold ts_line_counts. rewrite (text_counts_same _ a b H). destruct H as [K _]. now rewrite K.
+Qed.
 
 (* appended code lies outside every node *)
 Lemma slice_app {A} lo hi (l extra : list A) : hi <= List.length l -> slice lo hi (l ++ extra) = slice lo hi l.
